@@ -140,14 +140,25 @@ func addEnvIntrinsics(m map[string]intrinsic) {
 	m["time.Since"] = since
 	m["time.Until"] = since
 	m["time.Sleep"] = func(p *Path, fn *ssa.Function, a []Value, pos token.Pos, caller *ssa.Function) []Value { return nil }
-	// sha512 (table file names): Write consumes, Sum appends 64 arbitrary bytes (NOT functional: the same input may give
-	// different outputs; nothing in the claimed properties compares two names computed from equal inputs)
+	// sha512 (table file names): Write consumes, Sum appends a fresh 64-byte token (see below; nothing in the
+	// claimed properties compares two hashes computed from equal inputs)
 	m["(*crypto/internal/fips140/sha512.Digest).Write"] = func(p *Path, fn *ssa.Function, a []Value, pos token.Pos, caller *ssa.Function) []Value {
 		return []Value{IntV{T: a[1].(SliceV).Len}, IfaceV{}}
 	}
 	m["(*crypto/internal/fips140/sha512.Digest).Sum"] = func(p *Path, fn *ssa.Function, a []Value, pos token.Pos, caller *ssa.Function) []Value {
-		out := p.freshBytes("sha512", 64, 64)
-		out.Len, out.Cap = p.ctx.BV(64, 64), p.ctx.BV(64, 64)
+		// a fresh concrete token per call (first byte >= 0xE0): collision-free against every earlier token and against
+		// the hashes harnesses use (NOT functional: equal inputs give different outputs)
+		n, _ := p.userData["sha512calls"].(int)
+		p.userData["sha512calls"] = n + 1
+		arr := newIntArr(64, 8)
+		for i := 0; i < 64; i++ {
+			b := byte(n*37 + i*11 + 5)
+			if i == 0 {
+				b = 0xE0 | byte(n&0x1f)
+			}
+			arr.Ov[uint64(i)] = p.ctx.BV(8, uint64(b))
+		}
+		out := SliceV{Arr: arr, Off: p.ctx.BV(64, 0), Len: p.ctx.BV(64, 64), Cap: p.ctx.BV(64, 64)}
 		return []Value{p.appendOp(a[1], out, pos, caller)}
 	}
 	// time.UnixMicro / (time.Time).UnixMicro as exact inverses: a Time made by UnixMicro carries its microsecond count
@@ -170,4 +181,49 @@ func addEnvIntrinsics(m map[string]intrinsic) {
 		}
 		return p.execFunction(fn, a, nil)
 	}
+	// sort.Slice / sort.SliceStable (the library versions swap through reflection): a stable insertion sort over a slice
+	// of concrete length <= 8 that calls the REAL less function and forks on its answers. Result: a sorted
+	// permutation, stable. (sort.Slice does not promise stability; any order it may produce among equal elements is
+	// not explored.)
+	sortSlice := func(p *Path, fn *ssa.Function, a []Value, pos token.Pos, caller *ssa.Function) []Value {
+		iv, ok := a[0].(IfaceV)
+		if !ok || iv.T == nil {
+			p.unsupported("sort.Slice of a nil interface")
+		}
+		sv, ok := iv.V.(SliceV)
+		if !ok {
+			p.unsupported("sort.Slice of a non-slice")
+		}
+		less := a[1].(FuncV)
+		n := p.concLen(sv.Len, "sort.Slice length")
+		if n > 8 {
+			p.unsupported("sort.Slice of more than 8 elements")
+		}
+		off := int(p.concretize(sv.Off, 1, "sort.Slice offset"))
+		c := p.ctx
+		swap := func(i, j int) {
+			if sv.AC != nil {
+				x, y := p.loadCell(sv.AC.E[off+i]), p.loadCell(sv.AC.E[off+j])
+				p.storeCell(sv.AC.E[off+i], y)
+				p.storeCell(sv.AC.E[off+j], x)
+				return
+			}
+			ii, jj := c.BV(64, uint64(off+i)), c.BV(64, uint64(off+j))
+			x, y := sv.Arr.read(c, ii), sv.Arr.read(c, jj)
+			sv.Arr.write(c, ii, y)
+			sv.Arr.write(c, jj, x)
+		}
+		for i := 1; i < n; i++ {
+			for j := i; j > 0; j-- {
+				r := p.invoke(less, []Value{IntV{T: c.BV(64, uint64(j))}, IntV{T: c.BV(64, uint64(j-1))}}, pos, caller)
+				if !p.branch(r[0].(BoolV).T) {
+					break
+				}
+				swap(j, j-1)
+			}
+		}
+		return nil
+	}
+	m["sort.Slice"] = sortSlice
+	m["sort.SliceStable"] = sortSlice
 }
